@@ -42,9 +42,14 @@ CHECKS["C04"] = dict(
     text="Every recorded VM run (linear and LP gas solver) is validated by TLC against SierraRun; at Finish the law GasCovers "
          "(100*steps + 70*rc + 56*rc96 + sum price(b)*uses(b) <= charged + 100, charged = gas given - gas left, or the declared entry cost "
          "for functions without a gas builtin) and StepBound are evaluated on the real counters. On the unchanged tree the inequality is "
-         "tight (equality) on most runs, so an under-charge of a single step on an executed path is detected.",
+         "tight (equality) on most runs, so an under-charge of a single step on an executed path is detected. Design level: GasDesign "
+         "(wallet discipline => GasCovers / Bounded / termination on every small CFG) and FeedbackSet (a step-for-step transcription of "
+         "calc_feedback_set, the algorithm that decides which functions of a call cycle withdraw gas: TLC checks Covers / Inside / "
+         "SelfLoops on every graph with <= 3 nodes and every successor order (12 288 cases; thorough also 4 nodes, 262 144 cases) and "
+         "each case is replayed into the real compute_scc / calc_feedback_set, which must return the identical ordered set; a real "
+         "result that leaves a cycle uncovered is a violation).",
     note=_RUN_NOTE + " Memory holes and blake2s opcode uses are not priced.",
-    technique="TLA+ spec SierraRun (GasCovers/StepBound laws); TLC trace validation of real VM runs with gas ladder",
+    technique="TLA+ specs SierraRun (GasCovers/StepBound laws; TLC trace validation of real VM runs with gas ladder), GasDesign (TLC design model) and FeedbackSet (TLC-enumerated graphs replayed into the real call-graph algorithms)",
     design_ref="3.3, 3.4, 5/C04", engine="tlc+cvh")
 CHECKS["C02"] = dict(
     level="model_checking",
